@@ -844,8 +844,15 @@ class SubmodelElementList(SubmodelElement, base.UniqueIdShortNamespace, Generic[
 
     @value.setter
     def value(self, value: Iterable[_SE]):
+        new_items = list(value)
+        old_items = list(self._value)
         del self._value[:]
-        self._value.extend(value)
+        try:
+            self._value.extend(new_items)
+        except Exception:
+            # extend() has removed its own additions again; restore the previous content
+            self._value.extend(old_items)
+            raise
 
     @property
     def type_value_list_element(self) -> Type[_SE]:
